@@ -6,6 +6,7 @@
 package metastore
 
 import (
+	"bytes"
 	"encoding/json"
 	"fmt"
 	"hash/fnv"
@@ -34,6 +35,15 @@ type Cluster struct {
 	applied  []int
 	results  []map[int]dbsm.Result
 	Lag      bool // explore replica lag on reads
+	// Divergence is set when two replicas produced different results for the same log position
+	// (replicas catch up in ONE apply call whatever the number of missing entries, so they see
+	// different batchings of the same log - dragonboat's contract allows any).
+	Divergence string
+	// SnapReads: a lagging replica that moves forward to serve a stale read does so by installing a
+	// snapshot of the log prefix (taken from a scratch replica) instead of replaying the entries;
+	// catch-up before applying the node's own proposal stays log replay. With a correct store both
+	// give the same replica state.
+	SnapReads bool
 }
 
 func NewCluster(nodes int, lag bool) *Cluster {
@@ -48,14 +58,64 @@ func NewCluster(nodes int, lag bool) *Cluster {
 
 // catchUp applies log entries to node's replica up to position upTo (count of entries).
 func (c *Cluster) catchUp(node, upTo int) {
-	for c.applied[node] < upTo {
-		i := c.applied[node]
-		out, err := c.replicas[node].Update([]dbsm.Entry{{Index: uint64(i + 1), Cmd: c.cmds[i]}})
-		if err != nil {
+	from := c.applied[node]
+	if from >= upTo {
+		return
+	}
+	batch := make([]dbsm.Entry, 0, upTo-from)
+	for i := from; i < upTo; i++ {
+		batch = append(batch, dbsm.Entry{Index: uint64(i + 1), Cmd: c.cmds[i]})
+	}
+	out, err := c.replicas[node].Update(batch)
+	if err != nil {
+		panic(err)
+	}
+	for k := range out {
+		i := from + k
+		c.results[node][i] = out[k].Result
+		for other := range c.results {
+			if o, ok := c.results[other][i]; ok && other != node && (o.Value != out[k].Result.Value || string(o.Data) != string(out[k].Result.Data)) && c.Divergence == "" {
+				c.Divergence = fmt.Sprintf("log position %d: replica %d (applied in a call of %d entries) -> code %d %s, replica %d -> code %d %s", i+1, node+1, len(batch), out[k].Result.Value, out[k].Result.Data, other+1, o.Value, o.Data)
+			}
+		}
+	}
+	c.applied[node] = upTo
+}
+
+// installSnapshot moves node's replica to position upTo with a snapshot of the prefix.
+func (c *Cluster) installSnapshot(node, upTo int) {
+	if c.applied[node] >= upTo {
+		return
+	}
+	donor := kv.NewLFSM()(1000, 98).(*kv.LFSM)
+	batch := make([]dbsm.Entry, 0, upTo)
+	for i := 0; i < upTo; i++ {
+		batch = append(batch, dbsm.Entry{Index: uint64(i + 1), Cmd: c.cmds[i]})
+	}
+	if len(batch) > 0 {
+		if _, err := donor.Update(batch); err != nil {
 			panic(err)
 		}
-		c.results[node][i] = out[0].Result
-		c.applied[node]++
+	}
+	ctx, err := donor.PrepareSnapshot()
+	if err != nil {
+		panic(err)
+	}
+	var buf bytes.Buffer
+	if err := donor.SaveSnapshot(ctx, &buf, nil, nil); err != nil {
+		panic(err)
+	}
+	if err := c.replicas[node].RecoverFromSnapshot(&buf, nil, nil); err != nil {
+		panic(err)
+	}
+	c.applied[node] = upTo
+}
+
+// stopIfDiverged ends the execution of a scheduled thread at once (reported by the caller's check
+// as a violation, never pruned away); outside a thread the caller reads Divergence.
+func (s *NodeStore) stopIfDiverged() {
+	if s.T != nil && s.C.Divergence != "" {
+		panic("metadata-replicas-disagree-under-batching: " + s.C.Divergence)
 	}
 }
 
@@ -127,6 +187,7 @@ func (s *NodeStore) read(label string, q any) {
 	lo, hi := s.C.applied[s.Node], len(s.C.cmds)
 	if !s.C.Lag || s.T == nil || lo == hi {
 		s.C.catchUp(s.Node, hi)
+		s.stopIfDiverged()
 		return
 	}
 	// answers at every candidate position, computed on a scratch replica
@@ -161,7 +222,12 @@ func (s *NodeStore) read(label string, q any) {
 		return opts[i].pos > opts[j].pos
 	})
 	c := s.T.Choose(fmt.Sprintf("n%d.lag", s.Node), len(opts))
-	s.C.catchUp(s.Node, opts[c].pos)
+	if s.C.SnapReads {
+		s.C.installSnapshot(s.Node, opts[c].pos)
+	} else {
+		s.C.catchUp(s.Node, opts[c].pos)
+	}
+	s.stopIfDiverged()
 }
 
 func (s *NodeStore) propose(label string, u kv.Update) dbsm.Result {
@@ -175,6 +241,7 @@ func (s *NodeStore) propose(label string, u kv.Update) dbsm.Result {
 	s.C.cmds = append(s.C.cmds, b)
 	pos := len(s.C.cmds) - 1
 	s.C.catchUp(s.Node, pos+1)
+	s.stopIfDiverged()
 	res := s.C.results[s.Node][pos]
 	s.note(fmt.Sprintf("%d:%s", res.Value, res.Data))
 	s.C.Log = append(s.C.Log, LogRec{Index: uint64(pos + 1), Node: s.Node, Update: u, Code: res.Value, Call: s.Call})
